@@ -264,6 +264,9 @@ impl Prop for C07 {
     let c = cal();
     match t {
       "dates" => {
+        // route equivalence of the objects this property reads (see routes.rs)
+        prop_run(env, out, "routes", env.tier.pick(1600, 64000) / nshards as u32, 8800 + shard as u64, crate::routes::date_strategy(), &ev);
+        out.set_exhaustive("routes", false);
         // strided walks on fresh threads (see engine::stride_walks)
         stride_walks(env, out, "scd", env.tier.pick(1600, 48000) / nshards as u32, 7000 + shard as u64, 0, (crate::model::NDAYS as i64), 800, &|x| vec![x, 1], &ev);
         let (lo, hi) = shard_range(NDAYS, shard, nshards);
@@ -335,6 +338,7 @@ impl Prop for C07 {
       "date" | "scd" => self.eval_date(env, out, sub, case),
       "lunar" => self.eval_lunar(env, out, case),
       "walk" => self.eval_walk(env, out, case),
+      "routes" => crate::routes::compare_day_routes(env, out, "routes", case, (case.a[0].clamp(0, crate::model::NDAYS as i64 - 1)) as usize, &crate::routes::fields_c07),
       _ => panic!("unknown sub-check {}", sub),
     }
   }
